@@ -192,6 +192,8 @@ def run_par_case(case):
         'threads': len(sim.threads), 'now': sim.now, 'sig': sim.signature(),
         'pairs': sorted(sim.pairs), 'clock_jumps': sim.clock_jumps,
     }
+    res['main_blocks'] = list(sim.main_blocks)
+    res['main_yields'] = list(sim.main_yields)
     res['choices'] = sim.choices
     W.set_ctx(None)
     return res
